@@ -397,7 +397,8 @@ func runC11Pool(c *Ctx, prop string) {
 		for _, put := range pi.Puts {
 			rel[put.Parent()] = true
 		}
-		if len(rel) != 1 {
+		isBuilder := isNamed(pi.Pooled, "strings", "Builder")
+		if len(rel) != 1 && !isBuilder {
 			var ns []string
 			for f := range rel {
 				ns = append(ns, fnName(f))
@@ -407,12 +408,18 @@ func runC11Pool(c *Ctx, prop string) {
 			continue
 		}
 		var releaser *ssa.Function
+		var releasers []*ssa.Function
 		for f := range rel {
-			releaser = f
+			releasers = append(releasers, f)
 		}
+		sort.Slice(releasers, func(i, j int) bool { return fnName(releasers[i]) < fnName(releasers[j]) })
+		if len(releasers) == 0 {
+			c.Bad(rule, gname, "releaser", pi.G.Pos(), "objects are never returned to the pool")
+			continue
+		}
+		releaser = releasers[0]
 		c.Funcs[fnName(releaser)] = true
 		st, isStruct := pi.Pooled.(*types.Pointer).Elem().Underlying().(*types.Struct)
-		isBuilder := isNamed(pi.Pooled, "strings", "Builder")
 		switch {
 		case isBuilder:
 			// Reset before Put when non-empty
@@ -430,39 +437,49 @@ func runC11Pool(c *Ctx, prop string) {
 				}
 			}
 			in.Models["(*sync.Pool).Put"] = func(in *Interp, site ssa.Instruction, cc *ssa.CallCommon, a []AVal) (AVal, bool) {
-				in.Emit("put", site, a...)
+				if keyOf(a[0]) == "&"+gname {
+					in.Emit("put", site, a...)
+				}
 				return Tup{}, true
 			}
+			// one dedicated releaser, or (when it was inlined) every function that puts a builder back:
+			// on each path a Put is preceded by Reset of that very builder unless it was found empty
 			n := 0
-			for _, t := range in.Explore(releaser, symArgs(releaser), 100) {
-				if t.Cut != "" || t.Panic != "" || t.Converged {
-					continue
-				}
-				n++
-				reset, put, nonEmpty := false, false, true
-				for k, v := range t.PC {
-					if strings.HasPrefix(k, "len0(") && v == 1 {
-						nonEmpty = false
+			for _, rl := range releasers {
+				c.Funcs[fnName(rl)] = true
+				for _, t := range in.Explore(rl, symArgs(rl), 400) {
+					if t.Cut != "" || t.Panic != "" || t.Converged {
+						continue
 					}
-				}
-				for _, e := range t.Events {
-					if e.Kind == "builder" {
-						if m, _ := isCstStr(e.Args[0]); m == "Reset" && !put {
-							reset = true
+					n++
+					resetOf := map[string]bool{}
+					emptyOf := map[string]bool{}
+					for k, v := range t.PC {
+						if strings.HasPrefix(k, "len0(") && v == 1 {
+							emptyOf[k[5:len(k)-1]] = true
 						}
 					}
-					if e.Kind == "put" {
-						put = true
+					puts := 0
+					for _, e := range t.Events {
+						if e.Kind == "builder" {
+							if m, _ := isCstStr(e.Args[0]); m == "Reset" {
+								resetOf[keyOf(e.Args[1])] = true
+							}
+						}
+						if e.Kind == "put" && len(e.Args) >= 2 {
+							puts++
+							obj := keyOf(e.Args[1])
+							if !resetOf[obj] && !emptyOf[obj] {
+								bad = append(bad, "a builder that may hold text is returned to the pool without Reset in "+fnName(rl)+": the next user appends to a previous call's text")
+							}
+						}
+					}
+					if puts == 0 && len(releasers) == 1 {
+						bad = append(bad, "a path of the releaser does not return the builder")
 					}
 				}
-				if put && nonEmpty && !reset {
-					bad = append(bad, "a builder that may hold text is returned to the pool without Reset: the next user appends to a previous call's text")
-				}
-				if !put {
-					bad = append(bad, "a path of the releaser does not return the builder")
-				}
 			}
-			c.Check(len(bad) == 0 && n > 0, rule, gname, "reset-before-put", releaser.Pos(), fmt.Sprintf("%d releaser paths", n), uniqJoin(bad, 2))
+			c.Check(len(bad) == 0 && n > 0, rule, gname, "reset-before-put", releaser.Pos(), fmt.Sprintf("%d paths of %d function(s) that put a builder back", n, len(releasers)), uniqJoin(bad, 2))
 		case isStruct:
 			// constructors: functions containing the Get
 			assignedAll := map[int]bool{}
@@ -514,7 +531,9 @@ func runC11Pool(c *Ctx, prop string) {
 				in.TraceStores = true
 				in.NoInline["valid.putStrBuf"] = true
 				in.Models["(*sync.Pool).Put"] = func(in *Interp, site ssa.Instruction, cc *ssa.CallCommon, a []AVal) (AVal, bool) {
-					in.Emit("put", site, a...)
+					if keyOf(a[0]) == "&"+gname {
+						in.Emit("put", site, a...)
+					}
 					return Tup{}, true
 				}
 				args := symArgs(releaser)
